@@ -574,6 +574,9 @@ func Run(r *ev.Run) {
 		}
 		var names []string
 		for _, f := range gen.JSONFields(tt) {
+			if f.OmitEmpty && f.Type.Kind() == reflect.Array && f.Type.Len() == 0 {
+				continue // a zero-length array is always empty: json.Marshal can never show the field
+			}
 			names = append(names, f.Name)
 		}
 		if !slices.Equal(keys, names) {
